@@ -5,3 +5,7 @@ open IrVerif.Scope
 #print axioms C03_roundtrip
 #print axioms C03_roundtrip_reloadable
 #print axioms C03_roundtrip_model
+#print axioms C03_meta_roundtrip
+#print axioms C03_roundtrip_decorated
+#print axioms C03_pure_decorated
+#print axioms C03_pure_ext
